@@ -1,5 +1,6 @@
 /- Helper lemmas about `RtcModel.Answer` (attribute keys produced by the capability builders). -/
 import RtcModel.Answer
+import RtcModel.Lemmas.C08Text
 namespace RtcModel.Answer
 open RtcModel.Text RtcModel.SdpLines
 
@@ -441,5 +442,127 @@ theorem buildList_length (c : Cfg) (ts : List TrxView) (remote : List Media) (ha
 theorem mem_of_getElem_some {α : Type} {l : List α} {i : Nat} {x : α} (h : l[i]? = some x) : x ∈ l := by
   obtain ⟨hi, rfl⟩ := List.getElem?_eq_some_iff.mp h
   exact List.getElem_mem hi
+
+theorem attrVals_append (l1 l2 : List Attr) (k : String) : attrVals (l1 ++ l2) k = attrVals l1 k ++ attrVals l2 k := by
+  simp [attrVals, List.filterMap_append]
+
+theorem attrVals_nil_of_keys (l : List Attr) (k : String) (h : ∀ a ∈ l, a.key ≠ k.toList) : attrVals l k = [] := by
+  unfold attrVals
+  rw [List.filterMap_eq_nil_iff]
+  intro a ha
+  simp [h a ha]
+
+theorem attrVals_filter_other (l : List Attr) (k k' : String) (hne : k.toList ≠ k'.toList) :
+    attrVals (l.filter (fun a => a.key != k'.toList)) k = attrVals l k := by
+  induction l with
+  | nil => rfl
+  | cons a rest ih =>
+    by_cases hk : a.key = k'.toList
+    · have hk2 : a.key ≠ k.toList := fun e => hne (e.symm.trans hk)
+      simp only [List.filter_cons, hk, bne_self_eq_false, Bool.false_eq_true, if_false]
+      rw [ih]
+      simp [attrVals, hk2]
+    · have : (a.key != k'.toList) = true := bne_iff_ne.mpr hk
+      simp only [List.filter_cons, this, if_true]
+      simp only [attrVals, List.filterMap_cons] at ih ⊢
+      rw [ih]
+
+/-- the DTLS setup an answer section carries: the role's value in WebRTC mode, none otherwise -/
+theorem setupOf_answerSection (c : Cfg) (t : TrxView) (remote : List Media) (hasLocal : Bool) (role : Option Bool)
+    (mid : Str) (mux : Bool) :
+    setupOf (answerSection c t remote hasLocal role mid mux) =
+      if c.mode = .webrtc then some (match role with | some true => "active".toList | some false => "passive".toList | none => "active".toList)
+      else none := by
+  have hne : "setup".toList ≠ "rtcp-mux".toList := by decide
+  have hall : attrVals ((codecPart c t.kind remote hasLocal mid).2 ++ extmapAttrs c t.kind remote mid ++ setupAttrs c role) "setup" =
+      attrVals (setupAttrs c role) "setup" := by
+    rw [attrVals_append, attrVals_append]
+    rw [attrVals_nil_of_keys _ "setup" (fun a ha => (codecPart_codec c t.kind remote hasLocal mid a ha).not_setup)]
+    have hext : ∀ a ∈ extmapAttrs c t.kind remote mid, a.key ≠ "setup".toList := by
+      intro a ha
+      have hk : a.key = "extmap".toList := by
+        unfold extmapAttrs at ha
+        simp only [List.mem_append] at ha
+        rcases ha with ((h | h) | h)
+        · split at h
+          · simp only [List.mem_append] at h
+            rcases h with h | h <;> (split at h <;> simp [extAttr, attr] at h <;> (subst h; rfl))
+          · cases h
+        · split at h <;> simp [extAttr, attr] at h <;> (subst h; rfl)
+        · split at h
+          · cases h
+          · split at h <;> simp [extAttr, attr] at h <;> (subst h; rfl)
+      rw [hk]; decide
+    rw [attrVals_nil_of_keys _ "setup" hext]
+    rfl
+  unfold setupOf answerSection capabilities
+  dsimp only
+  have hvals : ∀ (b : Bool), attrVals (if b = true then (codecPart c t.kind remote hasLocal mid).2 ++ extmapAttrs c t.kind remote mid ++ setupAttrs c role
+      else ((codecPart c t.kind remote hasLocal mid).2 ++ extmapAttrs c t.kind remote mid ++ setupAttrs c role).filter (fun a => a.key != "rtcp-mux".toList)) "setup"
+      = attrVals (setupAttrs c role) "setup" := by
+    intro b
+    cases b
+    · rw [if_neg (by decide), attrVals_filter_other _ "setup" "rtcp-mux" hne, hall]
+    · rw [if_pos rfl, hall]
+  rw [hvals]
+  unfold setupAttrs
+  split
+  · cases role with
+    | none => simp [attrVals, attr]
+    | some b => cases b <;> simp [attrVals, attr]
+  · rfl
+
+
+theorem zipAll_and (P Q : Media → Media → Bool) (os as : List Media) :
+    zipAll (fun o a => P o a && Q o a) os as = (zipAll P os as && zipAll Q os as) := by
+  induction os generalizing as with
+  | nil => cases as <;> simp [zipAll]
+  | cons o os ih =>
+    cases as with
+    | nil => simp [zipAll]
+    | cons a as =>
+      simp only [zipAll, ih]
+      cases P o a <;> cases Q o a <;> simp
+
+theorem zipAll_aligned_mids (os as : List Media) (h : zipAll secAligned os as = true) :
+    as.map (·.mid) = os.map (·.mid) := by
+  induction os generalizing as with
+  | nil => cases as <;> simp_all [zipAll]
+  | cons o os ih =>
+    cases as with
+    | nil => simp [zipAll] at h
+    | cons a as =>
+      simp only [zipAll, Bool.and_eq_true, secAligned, decide_eq_true_eq] at h
+      simp [h.1.2, ih as h.2]
+
+theorem offerGroup_of_offered (attrs : List Attr) (h : offeredBundle attrs = true) : ∃ og, offerGroup attrs = some og := by
+  unfold offeredBundle at h
+  unfold offerGroup
+  obtain ⟨a, ha, hp⟩ := List.any_eq_true.mp h
+  cases hf : attrs.find? (fun a => a.key = "group".toList &&
+      (match a.value with | some v => startsWith v "BUNDLE".toList | none => false)) with
+  | none =>
+    have := List.find?_eq_none.mp hf a ha
+    exact absurd hp this
+  | some b =>
+    have hb := List.find?_some hf
+    cases hv : b.value with
+    | none => simp [hv] at hb
+    | some v => exact ⟨v, by simp [hv]⟩
+
+/-- the mids listed by the group attribute an answer emits are the mids of its sections -/
+theorem groupMids_bundle (mids : List Str) (hne : mids ≠ []) (ht : ∀ m ∈ mids, IsTok m) :
+    groupMids ("BUNDLE ".toList ++ join sp mids) = mids := by
+  have e : "BUNDLE ".toList ++ join sp mids = join [' '] ("BUNDLE".toList :: mids) := by
+    cases mids with
+    | nil => exact absurd rfl hne
+    | cons m ms => simp [join, sp]
+  unfold groupMids
+  rw [e, splitWs_join _ (by
+    intro t htm
+    rcases List.mem_cons.mp htm with h | h
+    · subst h; decide
+    · exact ht t h)]
+  rfl
 
 end RtcModel.Answer
